@@ -577,7 +577,16 @@ class Interpreter(BaseInterpreter[TContext, TEvent]):
             event: The external event to process first.
         """
         # 1️⃣ Process the initial event that was dequeued.
-        await self._process_event(event)
+        try:
+            await self._process_event(event)
+        except asyncio.CancelledError:
+            raise
+        except Exception:
+            # 🧩 One region's transition aborted, but what the other regions
+            #    already committed is part of this macrostep and still has to
+            #    settle (see the sync engine's drain).
+            await self._settle_transient_transitions()
+            raise
 
         # 2️⃣ Immediately settle any event-less ("always") transitions.
         await self._settle_transient_transitions()
